@@ -160,7 +160,9 @@ func (s *v4Server) ResetLeases(leases []*dhcpsvc.Lease) (err error) {
 	s.leases = nil
 
 	for _, l := range leases {
-		if !l.IsStatic {
+		if !l.IsStatic && l.Hostname != "" {
+			// Don't generate hostnames for the leases that didn't have them
+			// when they were stored, to restore the same leases.
 			l.Hostname = s.validHostnameForClient(l.Hostname, l.IP)
 		}
 		err = s.addLease(l)
@@ -288,25 +290,31 @@ func (s *v4Server) rmLeaseByIndex(i int) {
 //
 // TODO(s.chzhen):  Refactor the code.
 func (s *v4Server) rmDynamicLease(lease *dhcpsvc.Lease) (err error) {
-	for i, l := range s.leases {
-		isStatic := l.IsStatic
+	// Look for a conflicting static lease first, so that nothing is removed
+	// when the error is returned.
+	for _, l := range s.leases {
+		if l.IsStatic && (bytes.Equal(l.HWAddr, lease.HWAddr) || l.IP == lease.IP) {
+			return errors.Error("static lease already exists")
+		}
+	}
 
+	// Don't use range, since the removal shifts the leases, and the lease
+	// following the removed one must be checked as well.
+	for i := 0; i < len(s.leases); {
+		l := s.leases[i]
 		if bytes.Equal(l.HWAddr, lease.HWAddr) || l.IP == lease.IP {
-			if isStatic {
-				return errors.Error("static lease already exists")
-			}
-
 			s.rmLeaseByIndex(i)
-			if i == len(s.leases) {
-				break
-			}
 
-			l = s.leases[i]
+			continue
 		}
 
-		if !isStatic && l.Hostname == lease.Hostname {
+		if !l.IsStatic && l.Hostname != "" && l.Hostname == lease.Hostname {
+			// Keep the hostnames index in sync.
+			delete(s.hostsIndex, l.Hostname)
 			l.Hostname = ""
 		}
+
+		i++
 	}
 
 	return nil
@@ -349,7 +357,9 @@ func (s *v4Server) addLease(l *dhcpsvc.Lease) (err error) {
 	s.ipIndex[l.IP] = l
 
 	s.leases = append(s.leases, l)
-	s.leasedOffsets.set(offset, true)
+	if inOffset {
+		s.leasedOffsets.set(offset, true)
+	}
 
 	return nil
 }
@@ -517,6 +527,16 @@ func (s *v4Server) validateStaticLease(l *dhcpsvc.Lease) (err error) {
 func (s *v4Server) updateStaticLease(l *dhcpsvc.Lease) (err error) {
 	s.leasesLock.Lock()
 	defer s.leasesLock.Unlock()
+
+	// Check what addLease checks before removing the dynamic leases, so that a
+	// rejected static lease doesn't change the leases.
+	if sn := s.conf.subnet; !sn.Contains(l.IP) {
+		return fmt.Errorf("subnet %s does not contain the ip %q", sn, l.IP)
+	}
+
+	if dup, ok := s.hostsIndex[l.Hostname]; ok && l.Hostname != "" && dup.IsStatic {
+		return ErrDupHostname
+	}
 
 	err = s.rmDynamicLease(l)
 	if err != nil {
@@ -997,7 +1017,8 @@ func (s *v4Server) handleRequest(req, resp *dhcpv4.DHCPv4) (lease *dhcpsvc.Lease
 
 // handleDecline is the handler for the DHCP Decline request.
 func (s *v4Server) handleDecline(req, resp *dhcpv4.DHCPv4) (err error) {
-	s.conf.notify(LeaseChangedDBStore)
+	// Store the leases after they have been changed.
+	defer s.conf.notify(LeaseChangedDBStore)
 
 	s.leasesLock.Lock()
 	defer s.leasesLock.Unlock()
@@ -1032,13 +1053,18 @@ func (s *v4Server) handleDecline(req, resp *dhcpv4.DHCPv4) (err error) {
 		return nil
 	}
 
-	newLease.Hostname = oldLease.Hostname
-	newLease.Expiry = time.Now().Add(s.conf.leaseTime)
-
-	err = s.addLease(newLease)
-	if err != nil {
-		return fmt.Errorf("adding new lease for %s: %w", mac, err)
+	// The new lease has already been added by allocateLease, so don't add it
+	// again and only move the hostname to it.
+	if newLease.Hostname != oldLease.Hostname {
+		delete(s.hostsIndex, newLease.Hostname)
+		newLease.Hostname = oldLease.Hostname
 	}
+
+	if newLease.Hostname != "" {
+		s.hostsIndex[newLease.Hostname] = newLease
+	}
+
+	newLease.Expiry = time.Now().Add(s.conf.leaseTime)
 
 	log.Info("dhcpv4: changed IP from %s to %s for %s", reqIP, newLease.IP, mac)
 
@@ -1076,7 +1102,7 @@ func (s *v4Server) handleRelease(req, resp *dhcpv4.DHCPv4) (err error) {
 
 	// TODO(a.garipov): Add a separate notification type for dynamic lease
 	// removal?
-	defer s.conf.notify(LeaseChangedDBStore)
+	s.conf.notify(LeaseChangedDBStore)
 
 	n := 0
 	s.leasesLock.Lock()
